@@ -115,9 +115,9 @@ def cases(tier, seed):
     for (m, n) in ((9, 7), (7, 9), (12, 12), (17, 5), (5, 17), (65, 3), (3, 65), (1, 9), (9, 1)):
         out.append({"key": f"large/{m}x{n}", "kind": "layout", "m": m, "n": n, "cls": "generic", "row": 0, "lay": "C"})
         out.append({"key": f"large-zero-col/{m}x{n}", "kind": "scaled", "m": m, "n": n, "cls": "ints", "row": 0, "e": 0, "zc": min(2, n - 1)})
-    for (m, n) in ((8, 2), (9, 2), (12, 3), (16, 4), (40, 4), (17, 4), (4, 16)):
-        out.append({"key": f"xf/{m}x{n}/nearcol", "kind": "xf", "m": m, "n": n, "cls": "generic", "row": 0, "xf": "nearcol"})
-        out.append({"key": f"xf/{m}x{n}/negzero_col", "kind": "xf", "m": m, "n": n, "cls": "generic", "row": 0, "xf": "negzero_col"})
+    for (m, n) in ((8, 2), (9, 2), (12, 3), (16, 4), (40, 4), (17, 4), (4, 16), (5, 2), (7, 3), (9, 4), (6, 2), (10, 3)):
+        for nm in ("nearcol", "negzero_col", "halfdep_top", "halfdep_bot", "twodeps", "depcol1", "allneg", "nearreal", "equalmod"):
+            out.append({"key": f"xf/{m}x{n}/{nm}", "kind": "xf", "m": m, "n": n, "cls": "generic", "row": 0, "xf": nm})
     return out
 
 
